@@ -121,6 +121,8 @@ def gen_case(r, grid, n, mode=None, unit=None):
             "names": r.sample(["est", "a_b", "\u00fc x", "1e3", " lead", "b.tum", "-1", "x" * 40], 3),
             "preread": r.sample(["positions_xyz", "orientations_quat_wxyz", "poses_se3", "distances", "check", "timestamps"], r.randint(0, 3)),
             "stamps_readonly": r.random() < 0.15, "reuse": r.random() < 0.35,
+            "modify": r.choice([None, None, None, "project:XY", "project:XZ", "project:YZ", "transform", "scale", "reduce"]),
+            "modify_right": r.random() < 0.5,
             "figmgmt": r.choice([None, None, "other_current", "bare", "two_axes"]),
             "step": step, "ncol": ncol, "clc_n": clc_n, "bad_unit": r.choice(NON_LENGTH) if r.random() < 0.05 else None}
 
@@ -502,6 +504,60 @@ def run_impl_(case):
         out["reuse"] = d
     if case.get("reuse", True):
         guarded("reuse", f_reuse)
+
+    def f_modify():
+        """L1 with a modification in between: the trajectory that was plotted above is changed in place (projection,
+        transformation, scaling, index reduction) and plotted again; every plot must show the object's data *now*, i.e.
+        exactly what the same calls draw for a freshly built trajectory that underwent the same operation"""
+        from evo.core.trajectory import Plane
+        op = case["modify"]
+        fresh = make_traj(case["pos"], case["rot"], case["stamps"], dts[0], lay[0])
+
+        def apply(t):
+            if op.startswith("project"):
+                t.project(Plane[op.split(":")[1]])
+            elif op == "transform":
+                T = np.eye(4)
+                T[:3, :3] = [[0.0, -1.0, 0.0], [1.0, 0.0, 0.0], [0.0, 0.0, 1.0]]
+                T[:3, 3] = [1.0, -2.0, 0.5]
+                t.transform(T, right_mul=case.get("modify_right", False))
+            elif op == "scale":
+                t.scale(2.0)
+            else:
+                t.reduce_to_ids([0, t.num_poses - 1] if t.num_poses > 1 else [0])
+
+        def draw(t):
+            d = {}
+            fig = plt.figure()
+            ax = plot.prepare_axis(fig, mode, 111, unit)
+            plot.draw_coordinate_axes(ax, t, mode, SCALE)
+            d["axes"] = coll_segments(ax.collections[-1]) if ax.collections else "NONE"
+            fig = plt.figure()
+            ax = plot.prepare_axis(fig, mode, 111, unit)
+            plot.traj(ax, mode, t, "-", "black", "est", plot_start_end_markers=True)
+            d["traj"] = [line_data(ln) for ln in ax.lines]
+            d["markers"] = [scatter_point(c) for c in ax.collections]
+            fig, axarr = plt.subplots(3)
+            plot.traj_xyz(axarr, t, start_timestamp=START, length_unit=unit)
+            d["xyz"] = [[fl(ln.get_xdata(orig=True)), fl(ln.get_ydata(orig=True))] for a in axarr for ln in a.lines]
+            fig, axarr = plt.subplots(3)
+            plot.traj_rpy(axarr, t, start_timestamp=START)
+            d["rpy"] = [[fl(ln.get_xdata(orig=True)), fl(ln.get_ydata(orig=True))] for a in axarr for ln in a.lines]
+            if case["stamps"] is not None and t.num_poses > 1:
+                fig = plt.figure()
+                ax = fig.add_subplot(111)
+                plot.speeds(ax, t, start_timestamp=START)
+                d["speeds"] = [fl(ax.lines[0].get_xdata(orig=True)), fl(ax.lines[0].get_ydata(orig=True))]
+            plt.close("all")
+            return d
+        draw(tr)                 # (again) before the modification: whatever is cached is cached now
+        apply(tr)
+        apply(fresh)
+        same, ref = draw(tr), draw(fresh)
+        bad = [k for k in ref if same.get(k) != ref[k]]
+        out["modify"] = {"op": op, "differs": bad, "same_object": {k: same[k] for k in bad[:1]}, "fresh": {k: ref[k] for k in bad[:1]}}
+    if case.get("modify"):
+        guarded("modify", f_modify)
     return out
 
 
@@ -963,6 +1019,19 @@ def oracle(ctx, case, impl):
                     break
         if ru["traj_twice"] != [want_line, want_line]:
             ctx.fail(case, "trajectory-line-at-own-coordinates", "the same trajectory drawn twice into one Axes: line data differ", tags)
+    mo = impl.get("modify")
+    if isinstance(mo, dict):
+        if mo["differs"]:
+            clause = {"axes": "frame-markers-at-pose", "traj": "trajectory-line-at-own-coordinates", "markers": "start-end-markers",
+                      "xyz": "xyz-against-time", "rpy": "rpy-against-time", "speeds": "speed-against-time"}[mo["differs"][0]]
+            ctx.fail(case, clause, f"after the in-place operation {mo['op']} on an already plotted trajectory the plots {mo['differs']} do "
+                     f"not show its current poses (they differ from what the same calls draw for a freshly built trajectory "
+                     f"after the same operation): {str(mo['same_object'])[:120]} vs {str(mo['fresh'])[:120]}", tags)
+        ctx.count("branch", "modify:" + mo["op"])
+    elif isinstance(mo, str) and not (mo == "E_PLOT"):
+        # TrajectoryException of project()/reduce on degenerate input is evo's refusal, anything else was raised by a plot call
+        if "TrajectoryException" not in mo:
+            ctx.fail(case, "no-unexpected-exception", f"re-plotting after {case.get('modify')}: {mo[:160]}", tags)
     s = impl.get("err")
     if isinstance(s, dict):
         ex = case["err_x"] if case["err_x"] is not None else [float(k) for k in range(n)]
